@@ -410,7 +410,7 @@ def check_C18(tier, seed):
     """Adversarial injective instantiations of pids / formats: the code must behave exactly
     like the model (in which identifiers are uninterpreted, so nothing can alias) and every
     file it creates must lie inside the root at a hash-derived location."""
-    from . import walker, adversarial
+    from . import walker, adversarial, tlc
     from .ids import Inst
     v = Verdict("C18", tier, seed, "model_checking")
     base_kw = dict(pids=["p1", "p2", "p3"], contents=["a", "b"], extras=[], fmts=["fD", "f2", "f3"],
@@ -425,7 +425,7 @@ def check_C18(tier, seed):
     paths = (paths * (1 + n_inst * per // max(1, len(paths))))[:n_inst * per]
     insts, described = [], []
     for i in range(n_inst):
-        pid_strings, fmt_strings = adversarial.instantiation(seed * 100003 + i)
+        pid_strings, fmt_strings = adversarial.instantiation(seed * 100003 + i, tlc.scratch_root())
         kw = dict(base_kw, pid_strings=pid_strings, fmt_strings=fmt_strings, _contain=True)
         for _ in range(per):
             insts.append(kw)
